@@ -80,6 +80,8 @@ def chain(draw, cid="A", nmin=1, nmax=6, wild=False, hyd=None, variants=0.2, sta
         d["hdrop"] = [[draw(st.integers(0, n - 1)), draw(st.integers(0, 40))] for _ in range(draw(st.integers(1, 3)))]
     if draw(st.integers(0, 3)) == 0:
         d["shuffle"] = draw(st.integers(1, 1000))  # atoms of a residue listed in an unusual order
+    if draw(st.integers(0, 5)) == 0:
+        d["hetres"] = draw(st.integers(0, 15))  # one standard residue written with HETATM records
     if d["start"] + n > 9999:  # the PDB residue-number column has 4 characters
         d["start"] = 9999 - n
     return d
